@@ -4,7 +4,7 @@ From Coq Require Import Ascii String List Bool ZArith NArith.
 From PTBase Require Import Exn PyStr PyNum PyVal.
 From PTModel Require Import Fortran FortranNF FortranRender.
 From Gen Require Import GenFortran.
-From P Require Import Spec Blanks IntRender Styles Main Readers Defaults.
+From P Require Import Spec Blanks IntRender Styles Main Readers Defaults DStyle.
 Import ListNotations.
 Open Scope char_scope.
 
@@ -236,3 +236,15 @@ Theorem default_reader_rejects_inner_blank_and_D : forall k fd s c, In k ["f"; "
   reader_of k gen_default_read_function = Some fd -> In c (cstrip s) -> core_char c = false -> fd (VStr s) = Ok VNone.
 Proof. exact default_none_on_blank_or_d. Qed.
 Print Assumptions default_reader_rejects_inner_blank_and_D.
+
+(** ** D EXPONENT LETTER, GENERAL (DStyle.v): every real printed in any style whose exponent letter
+    is D or d ([is_D_style]; any sign style, width, scale, blanks anywhere) is rejected by float(),
+    so the strict default reader answers None, while the Fortran reader reads exactly the real *)
+Theorem float_rejects_every_D_style : forall st x, is_D_style st -> py_float_opt (render st x) = None.
+Proof. exact float_rejects_d_style. Qed.
+Print Assumptions float_rejects_every_D_style.
+Theorem dictionaries_differ_on_every_D_style : forall k st x, In k ["f"; "e"; "g"] -> wf_real x -> is_D_style st ->
+  exists fd ff, reader_of k gen_default_read_function = Some fd /\ reader_of k gen_fortran_read_function = Some ff /\
+    fd (VStr (render st x)) = Ok VNone /\ ff (VStr (render st x)) = Ok (VFloat (real_value x)).
+Proof. exact d_style_differs. Qed.
+Print Assumptions dictionaries_differ_on_every_D_style.
